@@ -289,6 +289,8 @@ class RT:
             it = it.enum()
         if isinstance(it, LazyMap):
             it = it.to_seq()
+        if kind == "dict" and hasattr(it, "dictcomp_source") and self.literals.get("dictcomp"):
+            return self.literals["dictcomp"](fn, it, flt)
         if isinstance(it, (SymSeq, SymRange)):
             if kind == "dict":
                 f = self.literals.get("dictcomp")
@@ -325,6 +327,10 @@ class RT:
     def new_list(self):
         f = self.literals.get("list")
         return f() if f else SymList()
+
+    def new_list_of(self, elts):
+        f = self.literals.get("list_of")
+        return f(elts) if f else _b.list(elts)
 
     def super_(self, obj):
         if self.super_obj is None:
